@@ -23,6 +23,8 @@ const (
 	c06Plain     = slog.Level(41) // registered without colours
 	c06Unknown   = slog.Level(77) // never registered
 	c06ColoredBg = slog.Level(42) // registered with fg + bg
+	c06BgOnly    = slog.Level(43) // colours given with SetLevelColors: no foreground, an attribute (underline) only
+	c06SetFgBg   = slog.Level(44) // colours given with SetLevelColors: foreground and background
 )
 
 func c06setupWorld() {
@@ -31,6 +33,10 @@ func c06setupWorld() {
 	_ = slog.RegisterLevel(c06Plain, "plain41", slog.RegWithTreatedAsLevel(slog.InfoLevel))
 	_ = slog.RegisterLevel(c06ColoredBg, "hint42", slog.RegWithColor(color.FgYellow, color.BgUnderline),
 		slog.RegWithShortTags([6]string{"", "H", "HT", "HNT", "HINT", "HINTS"}), slog.RegWithTreatedAsLevel(slog.InfoLevel))
+	_ = slog.RegisterLevel(c06BgOnly, "under43", slog.RegWithTreatedAsLevel(slog.InfoLevel))
+	slog.SetLevelColors(c06BgOnly, color.NoColor, color.BgUnderline)
+	_ = slog.RegisterLevel(c06SetFgBg, "alert44", slog.RegWithTreatedAsLevel(slog.WarnLevel))
+	slog.SetLevelColors(c06SetFgBg, color.FgLightRed, color.BgBlink)
 }
 
 func hasCtl(s string, allowLF bool) bool {
@@ -305,7 +311,7 @@ var c06msgs = []string{"m", "short message", strings.Repeat("x", 36), strings.Re
 func c06cases(thorough bool, emit func(rc recCase)) {
 	base := recCase{Format: "color", MsgQ: qk("m"), Level: int(slog.InfoLevel)}
 	sevs := []slog.Level{slog.PanicLevel, slog.FatalLevel, slog.ErrorLevel, slog.WarnLevel, slog.InfoLevel, slog.DebugLevel, slog.TraceLevel,
-		slog.AlwaysLevel, slog.OKLevel, slog.SuccessLevel, slog.FailLevel, c06Colored, c06Plain, c06ColoredBg, c06Unknown}
+		slog.AlwaysLevel, slog.OKLevel, slog.SuccessLevel, slog.FailLevel, c06Colored, c06Plain, c06ColoredBg, c06Unknown, c06BgOnly, c06SetFgBg}
 	// A: severity x widths x messages
 	for _, sev := range sevs {
 		for low := 1; low <= 5; low++ {
@@ -354,7 +360,7 @@ func c06cases(thorough bool, emit func(rc recCase)) {
 	}
 	// C: every value representative x a few severities
 	for i := range valSpecs {
-		for _, sev := range []slog.Level{slog.InfoLevel, slog.ErrorLevel, c06Plain, c06Unknown, slog.TraceLevel} {
+		for _, sev := range []slog.Level{slog.InfoLevel, slog.ErrorLevel, c06Plain, c06Unknown, slog.TraceLevel, c06BgOnly} {
 			rc := base
 			rc.Layer = "C-values"
 			rc.Level = int(sev)
